@@ -349,6 +349,12 @@ def nested_objects(t, obj, path=()):
     b = gen.base_of(t)
     yield t, obj, path
     k = b[0]
+    # an object that is not of the kind its type says (a defect the callers report by its effects) is not descended into
+    kinds = {'seq': univ.Sequence, 'set': univ.Set, 'seqof': univ.SequenceOf, 'setof': univ.SetOf, 'choice': univ.Choice}
+    if k in kinds and not isinstance(obj, kinds[k]):
+        return
+    if k == 'choice' and not obj.isValue:
+        return
     if k in ('seq', 'set'):
         for i, (kind, dflt, ft) in enumerate(b[1]):
             c = obj.getComponentByPosition(i, default=None, instantiate=False)
@@ -765,6 +771,101 @@ def post_shrink(rep, drv):
 
 # ----------------------------------------------------------------------------- entry points
 
+def check_reads_constrained(rep):
+    """read-only uses of a record that carries a WITH COMPONENTS constraint do not change whether - and to what - it
+    encodes: the absent members stay absent for the constraint whatever placeholders the reads leave behind"""
+    from pyasn1.type import univ as U, namedtype as NT, constraint as CN
+    from pyasn1.codec.ber import encoder as ber_enc
+    from pyasn1.codec.der import encoder as der_enc
+    from pyasn1.codec.native import encoder as nat_enc
+
+    def mk(cls):
+        t = cls(componentType=NT.NamedTypes(NT.NamedType('a', U.Integer()), NT.OptionalNamedType('b', U.OctetString()),
+                                            NT.OptionalNamedType('c', U.SequenceOf(componentType=U.Integer())),
+                                            NT.DefaultedNamedType('d', U.Boolean(False))),
+                subtypeSpec=CN.WithComponentsConstraint(('a', CN.ComponentPresentConstraint()), ('b', CN.ComponentAbsentConstraint()),
+                                                        ('c', CN.ComponentAbsentConstraint())))
+        v = t.clone()
+        v['a'] = 1
+        return v
+    readers = [('getitem-name', lambda v: v['b']), ('getitem-name-constructed', lambda v: v['c']), ('getitem-pos', lambda v: v[1]),
+               ('values', lambda v: list(v.values())), ('items', lambda v: list(v.items())), ('keys', lambda v: list(v.keys())),
+               ('contains', lambda v: 'b' in v), ('prettyPrint', lambda v: v.prettyPrint()), ('native', lambda v: nat_enc.encode(v)),
+               ('clone', lambda v: v.clone(cloneValueFlag=True)), ('default-member', lambda v: v['d']), ('eq', lambda v: v == v),
+               ('getComponentByName', lambda v: v.getComponentByName('b')), ('iter', lambda v: list(v))]
+    for cls in (U.Sequence, U.Set):
+        for name, rd in readers:
+            v = mk(cls)
+            rep.evaluations += 1
+            rep.count('reads-constrained')
+            case = {'kind': 'reads-constrained', 'container': cls.__name__, 'reader': name}
+            before = (bytes(ber_enc.encode(v)).hex(), bytes(der_enc.encode(v)).hex())
+            try:
+                rd(v)
+            except Exception:  # noqa
+                pass
+            try:
+                after = (bytes(ber_enc.encode(v)).hex(), bytes(der_enc.encode(v)).hex())
+            except Exception as e:  # noqa
+                after = 'ERR ' + type(e).__name__
+            if after != before:
+                rep.fail('read-changes-encoding-constrained', 'after the read-only use %s the record encodes as %s, before as %s'
+                         % (name, after, before), case)
+
+
+def check_reassign_plain(rep):
+    """a record slot behaves like a dict entry: what it held before does not decide what a later plain-value assignment
+    stores. First an ASN.1 object the slot accepts but that is not exactly of the declared type (a more constrained
+    subtype, another text encoding, a typed value in an ANY slot), then a Python value: the record reads and encodes as
+    one that was given the Python value only."""
+    from pyasn1.type import univ as U, namedtype as NT, constraint as CN, char as CH
+    from pyasn1.codec.der import encoder as der_enc
+
+    def schema(cls):
+        return cls(componentType=NT.NamedTypes(NT.NamedType('n', U.Integer()), NT.NamedType('s', U.OctetString()),
+                                               NT.NamedType('u', CH.UTF8String()), NT.OptionalNamedType('a', U.Any())))
+    firsts = {
+        'n': [('constrained-subtype', lambda: U.Integer().subtype(subtypeSpec=CN.ValueRangeConstraint(0, 9)).clone(7))],
+        's': [('other-encoding', lambda: U.OctetString('x', encoding='utf-8')),
+              ('size-constrained', lambda: U.OctetString().subtype(subtypeSpec=CN.ValueSizeConstraint(0, 2)).clone('ab'))],
+        'u': [('size-constrained', lambda: CH.UTF8String().subtype(subtypeSpec=CN.ValueSizeConstraint(0, 2)).clone('ab'))],
+    }
+    seconds = {'n': 100, 's': u'\xe9\xe9\xe9', 'u': u'h\xe9llo'}
+    for cls in (U.Sequence, U.Set):
+        for field, lst in firsts.items():
+            for fname, first in lst:
+                for how in ('name', 'pos', 'setComponentByName'):
+                    rep.evaluations += 1
+                    rep.count('reassign-plain')
+                    case = {'kind': 'reassign-plain', 'container': cls.__name__, 'field': field, 'first': fname, 'how': how}
+                    idx = {'n': 0, 's': 1, 'u': 2}[field]
+
+                    def fill(o, skip=None):
+                        for f, v in (('n', 1), ('s', 'q'), ('u', 'w')):
+                            if f != skip:
+                                o[f] = v
+                    try:
+                        a = schema(cls).clone()
+                        fill(a, field)
+                        a[field] = first()
+                        if how == 'name':
+                            a[field] = seconds[field]
+                        elif how == 'pos':
+                            a[idx] = seconds[field]
+                        else:
+                            a.setComponentByName(field, seconds[field])
+                        got = bytes(der_enc.encode(a)).hex()
+                    except Exception as e:  # noqa
+                        got = 'ERR %s' % type(e).__name__
+                    b = schema(cls).clone()
+                    fill(b, field)
+                    b[field] = seconds[field]
+                    want = bytes(der_enc.encode(b)).hex()
+                    if got != want:
+                        rep.fail('slot-history-decides-assignment', 'after holding a %s object, assigning the Python value %r to %s gives %s; '
+                                 'a fresh record gives %s' % (fname, seconds[field], field, got, want), case)
+
+
 def check_sort_variants(rep, rng, n):
     """sort(key=..., reverse=...) behaves as the list method of the same name does (a stable sort, also when reversed):
     SEQUENCE OF / SET OF of INTEGER against a Python list of the same integers, keys with many ties"""
@@ -820,6 +921,8 @@ def run(rep, tier, seed):
                        'correspondence stream',
                        'a schema SEQUENCE OF/SET OF is encoded like the empty one by the library (documented leniency)']
     check_sort_variants(rep, common.rng_for(seed, 'C19', 'sort'), 400 if quick else 20000)
+    check_reads_constrained(rep)
+    check_reassign_plain(rep)
     # corpus first
     for head, ops_s in CORPUS:
         kind = kind_of(head)
